@@ -168,7 +168,7 @@ Theorem C10_runoff_coefficient : forall c rain, 0 <= c <= 1 -> Forall (fun r => 
 Proof. exact coeff_c10. Qed.
 Print Assumptions C10_runoff_coefficient.
 
-(** ** Sacramento (PARTIAL) *)
+(** ** Sacramento (repaired code) *)
 (** rates and fractions in [0,1], capacities >= 1 mm, pctim + adimp <= 1, non-negative
     unit-hydrograph proportions with positive sum (documented ranges of the OW-SPEC block) *)
 Definition C10_sac_ok (p : sac_par (T:=R)) : bool :=
@@ -214,99 +214,68 @@ Theorem C10_sac_components_add_up : forall p st io,
 Proof. exact sac_components_add_up. Qed.
 Print Assumptions C10_sac_components_add_up.
 
-(** PARTIAL (unconditional form).  Proved: for one time step, IF the land phase (evaporation,
-    resupply, the drainage-and-percolation loop) delivers non-negative fluxes, then runoff =
-    surfaceRunoff + baseflow, 0 <= baseflow <= runoff, every output (incl. actualET) is
-    non-negative and the unit-hydrograph buffer stays non-negative.
-    The hypothesis cannot be removed for all parameters accepted by C10_sac_ok: the land-phase
-    store invariant is FALSE there (four _refuted theorems below, two known findings).  What is
-    MISSING relative to the property is therefore exactly: the store invariant and the water
-    balance WITHOUT the three guards of C10_sacramento_guarded / C10_sacramento_budget_guarded
-    further below (lzfpm <= lzfsm, lztwm >= 10, and the per-step guard pre_guard); outside those
-    guards the clauses are covered only by the oracle on the implementation. *)
-Theorem C10_sacramento_c10_partial : forall p st io, C10_sac_ok p = true -> C10_qq_ok (qq st) ->
-  0 <= fst io -> 0 <= snd io ->
+(** One time step, channel side: IF the land phase delivers non-negative accumulated flows, then
+    runoff = surfaceRunoff + baseflow, 0 <= baseflow <= runoff, runoff / surfaceRunoff /
+    imperviousRunoff >= 0 and the unit-hydrograph buffer stays non-negative (the hypothesis is
+    discharged by C10_sacramento below) *)
+Theorem C10_sac_step_flows_ok : forall p st io, C10_sac_ok p = true -> C10_qq_ok (qq st) -> 0 <= snd io ->
   let l := sac_land p st io in
   0 <= i_flosf (l_v l) -> 0 <= i_roimp (l_v l) -> 0 <= i_floin (l_v l) -> 0 <= i_flobf (l_v l) ->
-  0 <= l_e1 l -> 0 <= l_e2 l -> 0 <= l_e3 l -> 0 <= l_e5 l ->
   let o := snd (sac_step p st io) in
   o_runoff o = o_surface o + o_baseflow o /\ 0 <= o_baseflow o <= o_runoff o /\ 0 <= o_surface o /\
-  0 <= o_runoff o /\ 0 <= o_imperv o /\ 0 <= o_aet o /\ C10_qq_ok (qq (fst (sac_step p st io))).
-Proof. exact sacramento_c10_partial. Qed.
-Print Assumptions C10_sacramento_c10_partial.
+  0 <= o_runoff o /\ 0 <= o_imperv o /\ C10_qq_ok (qq (fst (sac_step p st io))).
+Proof. exact sac_step_flows_ok. Qed.
+Print Assumptions C10_sac_step_flows_ok.
 
-(** REFUTED (known finding sacramento-adimc-unguarded): with lztwm < 10 mm the additional
-    impervious store exceeds its capacity uztwm + lztwm after one day from the model's own zero
-    state (witness: defaults with lztwm = 1, one day of 54 mm) ... *)
-Theorem C10_sac_adimc_bound_refuted : exists p io, C10_sac_ok p = true /\ io_nonneg io /\
-  let st := fst (sac_run p (sac_init p 0 0 0 0 0 0) io) in
-  adimc st > uztwm p + lztwm p.
-Proof. exact sac_adimc_bound_refuted. Qed.
-Print Assumptions C10_sac_adimc_bound_refuted.
-
-(** ... and is negative after the second day (witness: 54 mm then 4 mm; adimc = -1326) *)
-Theorem C10_sac_adimc_negative_refuted : exists p io, C10_sac_ok p = true /\ io_nonneg io /\
-  let st := fst (sac_run p (sac_init p 0 0 0 0 0 0) io) in
-  adimc st < 0.
-Proof. exact sac_adimc_negative_refuted. Qed.
-Print Assumptions C10_sac_adimc_negative_refuted.
-
-(** ... and the same missing guard bites for lztwm >= 10 as well: from a state inside every
-    individual store bound but with adimc < uztwc - lztwm (reached in the real code after free
-    water has been transferred to tension water during a dry spell, see
-    corpus/C10/sacramento_ratio_negative_storm.json) one 29 mm day makes adimc = -285 and
-    reports 97 mm of impervious runoff *)
-Theorem C10_sac_adimc_ratio_negative_refuted : exists p s0 s1 s2 s3 s4 s5 io, C10_sac_ok p = true /\ io_nonneg io /\
-  10 <= lztwm p /\
-  0 <= s0 <= uztwm p /\ 0 <= s1 <= uzfwm p /\ 0 <= s2 <= lztwm p /\ 0 <= s3 <= lzfpm p /\
-  0 <= s4 <= lzfsm p /\ 0 <= s5 <= uztwm p + lztwm p /\
-  adimc (fst (sac_run p (sac_init p s0 s1 s2 s3 s4 s5) io)) < 0.
-Proof. exact sac_adimc_ratio_negative_refuted. Qed.
-Print Assumptions C10_sac_adimc_ratio_negative_refuted.
-
-(** REFUTED (known finding sacramento-fracp-unguarded): from a state inside all store bounds
-    one dry day drives the supplemental lower-zone free-water store negative (possible whenever
-    lzfpm > lzfsm: the split fraction hpl*2*ratlp/(ratlp+ratls) is not capped at 1) *)
-Theorem C10_sac_lzfsc_negative_refuted : exists p s0 s1 s2 s3 s4 s5 io, C10_sac_ok p = true /\ io_nonneg io /\
-  0 <= s0 <= uztwm p /\ 0 <= s1 <= uzfwm p /\ 0 <= s2 <= lztwm p /\ 0 <= s3 <= lzfpm p /\
-  0 <= s4 <= lzfsm p /\ s0 <= s5 <= uztwm p + lztwm p /\
-  lzfsc (fst (sac_run p (sac_init p s0 s1 s2 s3 s4 s5) io)) < 0.
-Proof. exact sac_lzfsc_negative_run_refuted. Qed.
-Print Assumptions C10_sac_lzfsc_negative_refuted.
-
-(** ** Sacramento under guards: store invariant, outputs, water balance (all proved) *)
-(** The three guards exclude exactly the situations of the refutations above:
-    (g1) lzfpm <= lzfsm  (then the split fraction fracp is <= 1; a per-iteration dynamic form
-         [inc_guard] is in KernelProofs/SacramentoLand.v);
-    (g2) 10 <= lztwm     (then 2*pinc <= lztwm, since the loop increments are < 5 mm);
-    (g3) [sac_guarded p st io]: at every step of the run [pre_guard] holds, i.e. after the
-         evaporation and the free-to-tension transfer the numerator adimc - e1 - uztwc of the
-         ADIMP ratio is still >= 0, and PET <= uztwm + lztwm.  A static sufficient condition
-         per step is  uztwc + uzfwc <= adimc  and PET in range (C10_sac_pre_guard_suff).
-    [st_inv] is the store invariant, written out in C10_sac_st_inv_written_out. *)
+(** ** Sacramento, repaired code (hooks/fix-sacramento-guards.diff + hooks/fix-sacramento-e5-nonneg.diff):
+    store invariant, outputs, water balance *)
+(** Hypotheses that remain:
+    (h1) [C10_sac_ok p], the store invariant of the initial state (written out in
+         C10_sac_st_inv_written_out; note: only  0 <= adimc <= uztwc + lztwm  is required of the
+         additional impervious store), a non-negative UH buffer, non-negative forcing;
+    (h2) PET of every day <= uztwm + lztwm (the total tension-water capacity); needed for the bound
+         adimc - uztwc <= lztwm after the ADIMP evaporation; *)
 Theorem C10_sac_st_inv_written_out : forall p st, st_inv p st <->
   (0 <= uztwc st <= uztwm p /\ 0 <= uzfwc st <= uzfwm p /\ 0 <= lztwc st <= lztwm p /\
    0 <= alzfpc st <= lzfpm p * (1 + side p) /\ 0 <= alzfsc st <= lzfsm p * (1 + side p) /\
-   uztwc st <= adimc st <= uztwc st + lztwm p).
+   0 <= adimc st <= uztwc st + lztwm p).
 Proof. exact st_inv_iff. Qed.
 Print Assumptions C10_sac_st_inv_written_out.
 
-Theorem C10_sac_pre_guard_suff : forall p st evapt, C10_sac_ok p = true -> st_inv p st ->
-  0 <= evapt <= uztwm p + lztwm p -> uztwc st + uzfwc st <= adimc st -> pre_guard p st evapt.
-Proof. exact pre_guard_suff. Qed.
-Print Assumptions C10_sac_pre_guard_suff.
-
 (** whole runs of any length: every store stays between zero and its capacity, the UH buffer stays
     non-negative, and every output satisfies runoff = surfaceRunoff + baseflow,
-    0 <= baseflow <= runoff, all outputs (incl. actualET) >= 0 *)
-Theorem C10_sacramento_guarded : forall p io st, C10_sac_ok p = true -> lzfpm p <= lzfsm p -> 10 <= lztwm p ->
-  st_inv p st -> C10_qq_ok (qq st) -> io_nonneg io -> sac_guarded p st io ->
+    0 <= baseflow <= runoff, every output (incl. actualET) >= 0 *)
+Theorem C10_sacramento : forall p io st, C10_sac_ok p = true ->
+  st_inv p st -> C10_qq_ok (qq st) -> io_nonneg io ->
+  Forall (fun x => snd x <= uztwm p + lztwm p) io ->
   st_inv p (fst (sac_run p st io)) /\ C10_qq_ok (qq (fst (sac_run p st io))) /\
-  Forall (fun o => o_runoff o = o_surface o + o_baseflow o /\ 0 <= o_baseflow o <= o_runoff o /\
-                   0 <= o_surface o /\ 0 <= o_runoff o /\ 0 <= o_imperv o /\ 0 <= o_aet o)
+  Forall (fun o => (o_runoff o = o_surface o + o_baseflow o /\ 0 <= o_baseflow o <= o_runoff o /\
+                    0 <= o_surface o /\ 0 <= o_runoff o /\ 0 <= o_imperv o) /\ 0 <= o_aet o)
          (snd (sac_run p st io)).
-Proof. exact sacramento_c10_guarded. Qed.
-Print Assumptions C10_sacramento_guarded.
+Proof. exact sacramento_c10. Qed.
+Print Assumptions C10_sacramento.
+
+(** regression: the witnesses that broke the unrepaired code (known findings
+    sacramento-adimc-unguarded, sacramento-fracp-unguarded) and the one for a negative actualET
+    under the guards patch alone now behave *)
+Theorem C10_sac_adimc_bound_fixed :
+  adimc (fst (sac_run sac_wit_a (sac_init sac_wit_a 0 0 0 0 0 0) [(54, 0)])) = uztwm sac_wit_a + lztwm sac_wit_a.
+Proof. exact sac_adimc_bound_fixed. Qed.
+Theorem C10_sac_adimc_negative_fixed :
+  adimc (fst (sac_run sac_wit_n (sac_init sac_wit_n 0 0 0 0 0 0) [(54, 0); (4, 0)])) = 51.
+Proof. exact sac_adimc_negative_fixed. Qed.
+Theorem C10_sac_adimc_ratio_negative_fixed :
+  adimc (fst (sac_run sac_wit_r (sac_init sac_wit_r 100 0 0 0 0 10) [(29, 0)])) = 39 /\
+  map o_imperv (snd (sac_run sac_wit_r (sac_init sac_wit_r 100 0 0 0 0 10) [(29, 0)])) = [29/100].
+Proof. exact sac_adimc_ratio_negative_fixed. Qed.
+Theorem C10_sac_lzfsc_negative_fixed :
+  lzfsc (fst (sac_run sac_wit_b (sac_init sac_wit_b 50 4 0 0 (9/10) 50) [(0, 0)])) = 9/10 /\
+  lzfpc (fst (sac_run sac_wit_b (sac_init sac_wit_b 50 4 0 0 (9/10) 50) [(0, 0)])) = 4.
+Proof. exact sac_lzfsc_negative_fixed. Qed.
+Theorem C10_sac_aet_negative_fixed :
+  o_aet (snd (sac_step sac_wit_e (sac_init sac_wit_e 0 10 0 0 0 0) (0, 4))) = 0.
+Proof. exact sac_aet_negative_fixed. Qed.
+Print Assumptions C10_sac_aet_negative_fixed.
 
 (** water held per unit catchment area *)
 Definition C10_sac_stock (p : sac_par (T:=R)) (st : sac_st (T:=R)) : R :=
@@ -315,29 +284,31 @@ Definition C10_sac_stock (p : sac_par (T:=R)) (st : sac_st (T:=R)) : R :=
 
 (** no water created: stores after + cumulative (runoff + actualET) <= stores before + cumulative
     rain, for the whole run and (second theorem) for every prefix of the run *)
-Theorem C10_sacramento_budget_guarded : forall p, C10_sac_ok p = true -> lzfpm p <= lzfsm p -> 10 <= lztwm p ->
-  forall io st, st_inv p st -> C10_qq_ok (qq st) -> io_nonneg io -> sac_guarded p st io ->
+Theorem C10_sacramento_budget : forall p, C10_sac_ok p = true ->
+  forall io st, st_inv p st -> C10_qq_ok (qq st) -> io_nonneg io ->
+  Forall (fun x => snd x <= uztwm p + lztwm p) io ->
   C10_sac_stock p (fst (sac_run p st io))
     + rr_sum (map (fun o => o_runoff o + o_aet o) (snd (sac_run p st io)))
     <= C10_sac_stock p st + rr_sum (map fst io).
-Proof. exact sacramento_budget_guarded. Qed.
-Print Assumptions C10_sacramento_budget_guarded.
+Proof. exact sacramento_budget. Qed.
+Print Assumptions C10_sacramento_budget.
 
-Theorem C10_sacramento_cumulative_guarded : forall p, C10_sac_ok p = true -> lzfpm p <= lzfsm p -> 10 <= lztwm p ->
-  forall io st t, st_inv p st -> C10_qq_ok (qq st) -> io_nonneg io -> sac_guarded p st io ->
+Theorem C10_sacramento_cumulative : forall p, C10_sac_ok p = true ->
+  forall io st t, st_inv p st -> C10_qq_ok (qq st) -> io_nonneg io ->
+  Forall (fun x => snd x <= uztwm p + lztwm p) io ->
   rr_sum (firstn t (map (fun o => o_runoff o + o_aet o) (snd (sac_run p st io))))
     <= rr_sum (firstn t (map fst io)) + C10_sac_stock p st.
-Proof. exact sacramento_cumulative_guarded. Qed.
-Print Assumptions C10_sacramento_cumulative_guarded.
+Proof. exact sacramento_cumulative. Qed.
+Print Assumptions C10_sacramento_cumulative.
 
-(** the model's own initial state satisfies the invariant and holds no water; the guards are
+(** the model's own initial state satisfies the invariant and holds no water; the hypotheses are
     satisfiable on a non-empty run *)
 Theorem C10_sac_zero_state : forall p, C10_sac_ok p = true ->
   st_inv p (sac_init p 0 0 0 0 0 0) /\ C10_sac_stock p (sac_init p 0 0 0 0 0 0) = 0.
 Proof. exact (fun p H => conj (st_inv_init0 p H) (sac_stock_init0 p)). Qed.
 Print Assumptions C10_sac_zero_state.
 
-Example C10_sac_guarded_satisfiable : exists p io, C10_sac_ok p = true /\ lzfpm p <= lzfsm p /\ 10 <= lztwm p /\
-  st_inv p (sac_init p 0 0 0 0 0 0) /\ C10_qq_ok (qq (sac_init p 0 0 0 0 0 0)) /\ io_nonneg io /\ io <> [] /\
-  sac_guarded p (sac_init p 0 0 0 0 0 0) io.
-Proof. exact sac_guarded_satisfiable. Qed.
+Example C10_sac_hyps_satisfiable : exists p io, C10_sac_ok p = true /\
+  st_inv p (sac_init p 0 0 0 0 0 0) /\ C10_qq_ok (qq (sac_init p 0 0 0 0 0 0)) /\ io_nonneg io /\
+  Forall (fun x => snd x <= uztwm p + lztwm p) io /\ io <> [].
+Proof. exact sac_hyps_satisfiable. Qed.
